@@ -43,16 +43,33 @@ def main():
             print("patch does not apply:\n" + out)
             meta["confirmed"] = False
             return finish(meta, src, prop, name)
-        rc, out = sh("go build ./... && go test -vet=off -count=1 ./...", cwd=wt)
-        meta["ran"].append({"cmd": "go build ./... && go test ./... (mutant applied)", "rc": rc, "tail": out[-600:]})
-        suite_ok = rc == 0
+        # --fast: the change was confirmed in an earlier run (suite green, demo fails / passes): keep that record
+        prev = None
+        if "--fast" in sys.argv:
+            try:
+                prev = json.load(open("/verif/seeded/%s-%s/meta.json" % (prop, name)))
+            except Exception:
+                prev = None
+            if not (prev and prev.get("confirmed")):
+                prev = None
+        if prev:
+            rc, out = sh("go build ./...", cwd=wt)
+            meta["confirmed_at"] = prev.get("confirmed_at") or prev.get("repo_head")
+            meta["ran"] = [r for r in prev.get("ran", []) if "fast re-run" not in r.get("cmd", "")] + [{"cmd": "go build ./... (fast re-run: suite / demo confirmation kept from the run at " + str(meta["confirmed_at"]) + ")", "rc": rc}]
+            suite_ok = rc == 0 and prev.get("suite_passes_with_mutant")
+        else:
+            rc, out = sh("go build ./... && go test -vet=off -count=1 ./...", cwd=wt)
+            meta["ran"].append({"cmd": "go build ./... && go test ./... (mutant applied)", "rc": rc, "tail": out[-600:]})
+            suite_ok = rc == 0
         # demo
         demo = None
         for f in sorted(os.listdir(src)):
             if f.endswith("_test.go") or f == "main.go":
                 demo = f
         demo_fail = demo_pass = None
-        if demo and demo.endswith("_test.go"):
+        if prev:
+            demo_fail, demo_pass = prev.get("demo_fails_with_mutant"), prev.get("demo_passes_without")
+        elif demo and demo.endswith("_test.go"):
             text = open(os.path.join(src, demo)).read()
             m = re.search(r"^package\s+(\w+)", text, re.M)
             pkg = m.group(1) if m else "saml"
